@@ -305,8 +305,8 @@ def r4(R):
         for op in F.ops(node):
             if op.kind == 'call' and path_is(
                     op.path, ('self', '_cache', 'invalidate')) and \
-                    op.ast.args and dotted(op.ast.args[0]) == (
-                        'self', '_modified'):
+                    op.ast.args and ('path', ('self', '_modified')) in \
+                    provenance(op.ast.args[0], node.frame, F):
                 st = st | {'invalidate-modified'}
             if op.kind == 'call' and path_is(
                     op.path, ('self', '_invalidate_creating')):
@@ -426,13 +426,48 @@ def r5(R):
     R.instance('Connection.close')
     guards = [0]
 
+    # a primary connection closes the others of its group with it: what it
+    # closes it must have found free too, BEFORE its own close has any
+    # effect (a refusal that comes from a secondary's close() later leaves
+    # the primary half closed)
+    closes_group = any(
+        isinstance(c, ast.Call) and isinstance(c.func, ast.Attribute) and
+        c.func.attr == 'close' and isinstance(c.func.value, ast.Name) and
+        c.func.value.id != 'self' for c in walk_local(f.node))
+    group_checked = [False]
+
+    def group_test(e):
+        names = {x.attr for x in ast.walk(e) if isinstance(x, ast.Attribute)}
+        return 'connections' in names and '_needs_to_join' in names
+
     def edge(node, st, lab, tgt):
         if node.kind == 'test' and lab in ('T', 'F'):
-            for e, truth in implied_atoms(node.ast, lab):
+            if group_test(node.ast):
+                group_checked[0] = True
+            atoms = implied_atoms(node.ast, lab)
+            for e, truth in atoms:
                 if dotted(e) and F.canon(e, node.frame) == (
                         'self', '_needs_to_join'):
                     guards[0] += 1
                     return 'free' if truth else 'joined'
+            # `not self._needs_to_join or <group joined>` taken false:
+            # everything tested is free
+            if any(isinstance(x, ast.Attribute) and x.attr == '_needs_to_join'
+                   for x in ast.walk(node.ast)) and lab == 'F' and \
+                    isinstance(node.ast, ast.BoolOp) and isinstance(
+                        node.ast.op, ast.Or):
+                guards[0] += 1
+                return 'free'
+            if any(isinstance(x, ast.Attribute) and x.attr == '_needs_to_join'
+                   for x in ast.walk(node.ast)) and lab == 'T' and \
+                    isinstance(node.ast, ast.BoolOp) and isinstance(
+                        node.ast.op, ast.Or):
+                guards[0] += 1
+                return 'joined'
+        if node.kind == 'test' and any(
+                isinstance(x, ast.Attribute) and x.attr == '_needs_to_join'
+                for x in ast.walk(node.ast)):
+            return st               # the join test itself (may call any())
         if st != 'free' and has_effect(F, node):
             return Violation('Connection.close has an effect %s: closing in '
                              'the middle of a transaction silently drops or '
@@ -456,6 +491,16 @@ def r5(R):
         n = v.node if v.node.id != g.exit_return else (
             f.module.relpath, f.qualname, 'joined check')
         R.violation(n, v.message, g, v.path)
+    if closes_group and not group_checked[0] and not vs:
+        R.violation(
+            (f.module.relpath, f.qualname, 'joined check of the group'),
+            'Connection.close closes the other connections of its group '
+            'after its own close has taken effect, without having looked at '
+            'THEIR join state first: when only a secondary connection is '
+            'joined, the close is refused by that secondary -- after the '
+            'primary has run its callbacks and dropped its transaction '
+            'manager: a refused close leaves the primary unusable',
+            key='group closed without a join check up front')
 
 
 @rule('C11.R6', 'an object that is given an oid while its referrer is '
@@ -733,3 +778,83 @@ def r10(R):
                          'pending import not forgotten'), v.message, g,
                         v.path)
     R.require(n >= 2, 'abort methods not found')
+
+
+# ----------------------------------------------------------------- C11.R11
+@rule('C11.R11', 'an object that was new in the transaction is disowned '
+      'WITH its state: it is never ghostified first (a ghost without a '
+      'database cannot get its state back, and "can be added again later" '
+      'needs the state)', props=['C14'], min_instances=2)
+def r11(R):
+    conn = R.prog.cls(CONN)
+    # (a) tpc_abort: created objects are disowned before the modified ones
+    #     (among them everything savepoints stored) are invalidated
+    f = R.method(conn, 'tpc_abort')
+    g, b, F = R.cfg(f, conn, max_depth=0)
+    R.instance('Connection.tpc_abort order')
+
+    def edge(node, st, lab, tgt):
+        if lab == 'e':
+            return st
+        for op in F.ops(node):
+            if op.kind == 'call' and path_is(
+                    op.path, ('self', '_invalidate_creating')) and \
+                    not op.ast.args:
+                st = True
+        return st
+
+    def at(node, st):
+        for op in F.ops(node):
+            if op.kind == 'call' and path_is(
+                    op.path, ('self', '_cache', 'invalidate')) and \
+                    op.ast.args and ('path', ('self', '_modified')) in \
+                    provenance(op.ast.args[0], node.frame, F) and not st:
+                return Violation(
+                    'tpc_abort invalidates the modified objects -- among '
+                    'them every new object a savepoint stored -- before it '
+                    'disowns the created ones: a new object is ghostified '
+                    'and then loses its database; its state is gone and '
+                    'adding it again later commits nothing usable')
+        return st
+
+    vs, stats = explore(g, False, at=at, edge=edge)
+    R.count(stats)
+    for v in vs[:1]:
+        R.violation(v.node, v.message, g, v.path,
+                    key='modified invalidated before created disowned')
+    # (b) _abort: a registered object that is recorded as created is not
+    #     invalidated
+    f2 = R.method(conn, '_abort')
+    g2, b2, F2 = R.cfg(f2, conn, max_depth=0)
+    R.instance('Connection._abort registered objects')
+
+    def edge2(node, st, lab, tgt):
+        if node.kind == 'for':
+            return False
+        if node.kind == 'test' and lab in ('T', 'F'):
+            for e, truth in implied_atoms(node.ast, lab):
+                for x in ast.walk(e):
+                    if isinstance(x, ast.Compare) and len(x.ops) == 1 and \
+                            isinstance(x.ops[0], (ast.In, ast.NotIn)) and \
+                            dotted(x.comparators[0]) == ('self', '_creating'):
+                        return True
+        return st
+
+    def at2(node, st):
+        for op in F2.ops(node):
+            if op.kind == 'call' and path_is(
+                    op.path, ('self', '_cache', 'invalidate')) and not st:
+                return Violation(
+                    '_abort invalidates a registered object without having '
+                    'looked whether it is recorded as created by this '
+                    'transaction: a new object that was stored already '
+                    '(explicitly added, or stored by a savepoint and '
+                    'modified again) is ghostified before it is disowned '
+                    'and loses its state')
+        return st
+
+    vs, stats = explore(g2, False, at=at2, edge=edge2)
+    R.count(stats)
+    for v in vs[:1]:
+        R.violation(v.node, v.message, g2, v.path,
+                    key='registered created object invalidated')
